@@ -325,7 +325,7 @@ s_reject = st.fixed_dictionaries({
     "pos": st.integers(0, 7),
     "bad": st.sampled_from([2, -1, 0.5, 3, 255, 256, 1.5, -0.0001, 1.0000001, 1e9]),
     "form": st.sampled_from(["list", "tuple", "arr", "str"]),
-    "what": st.sampled_from(["element", "2d", "none", "text", "add_scalar", "add_none", "add_bad_elem", "add_2d", "radd_bad", "add_text", "strdigit", "huge_tail"]),
+    "what": st.sampled_from(["element", "2d", "none", "text", "add_scalar", "add_none", "add_bad_elem", "add_2d", "radd_bad", "add_text", "strdigit", "huge_tail", "masked"]),
     "text": st.sampled_from(["abc", "0 1 x", "01a", "0.5", "1e0", "two", "0b1", "[0,1]", "1;0x"]),
 })
 
@@ -393,6 +393,19 @@ def e_reject(c):
                 ok = lib(binary_sequence, v)
                 valid(ok, "huge record")
                 check(len(ok) == n and np.array_equal(ok.data, v), "huge-record-altered", "")
+    elif w == "masked":
+        # numpy masked arrays: an invalid value hidden under the mask is still invalid data; valid data comes out as a plain uint8 ndarray
+        v = list(bits) + [1]
+        bad_at = c["pos"] % len(v)
+        vv = list(v)
+        vv[bad_at] = c["bad"] if c["bad"] not in (0, 1) else 5
+        mask = [i == bad_at for i in range(len(v))]
+        raises((ValueError, TypeError), binary_sequence, np.ma.array(vv, mask=mask), tag="non-binary-element-accepted")
+        raises((ValueError, TypeError), lambda: a + np.ma.array(vv, mask=mask), tag="add-non-binary-accepted")
+        ok = lib(binary_sequence, np.ma.array(v, mask=mask))
+        valid(ok, "binary_sequence(masked array of valid bits)")
+        check(type(ok.data) is np.ndarray and ok.data.tolist() == v, "masked-input-altered", f"{type(ok.data).__name__} {ok.data.tolist()} vs {v}")
+        check(int(lib(ok.ones)) + int(lib(ok.zeros)) == len(v) and int(lib((~ok).ones)) == int(lib(ok.zeros)), "ones/zeros-inconsistent", "masked input")
     elif w == "add_text":
         raises((ValueError, TypeError), lambda: a + c["text"], tag="add-bad-text-accepted")
         raises((ValueError, TypeError), lambda: c["text"] + a, tag="radd-bad-text-accepted")
@@ -412,7 +425,7 @@ def s_cmp(draw):
     n = draw(st.integers(1, 40))
     return {
         "n": n, "seed": draw(st.integers(0, 2 ** 31)),
-        "dtype": draw(st.sampled_from(["nonneg_real", "nonneg_int", "real", "complex", "nonneg_f32", "nonneg_f16"])),
+        "dtype": draw(st.sampled_from(["nonneg_real", "nonneg_int", "real", "complex", "nonneg_f32", "nonneg_f16", "nonneg_bigint"])),
         "noise": draw(st.booleans()),
         "thr_form": draw(st.sampled_from(["py_float", "py_int", "np_float", "list", "array", "es", "es_noise", "len1_list", "len1_array", "tuple"])),
         "thr_len": draw(st.sampled_from(["match", "match", "match", "mismatch"])),
@@ -430,6 +443,10 @@ def e_cmp(c):
     elif c["dtype"] == "nonneg_int":
         s = rs.randint(0, 6, n)
         nz = rs.randint(0, 3, n) if c["noise"] else None
+    elif c["dtype"] == "nonneg_bigint":
+        # 64-bit integer samples beyond 2^53 (neighbouring integers that float64 cannot tell apart); thresholds are Python ints / int arrays
+        s = (2 ** 53 + rs.randint(-3, 4, n)).astype(np.int64)
+        nz = rs.randint(0, 3, n).astype(np.int64) if c["noise"] else None
     elif c["dtype"] in ("nonneg_f32", "nonneg_f16"):
         # narrow float samples sitting on decimal levels (0.1, 0.3, ...) that the narrow type cannot represent exactly; thresholds from the same decimals
         nd = np.float32 if c["dtype"] == "nonneg_f32" else np.float16
@@ -451,7 +468,10 @@ def e_cmp(c):
     tv = q(rs.uniform(0, 4, 1 if scalar else m))
     if c["dtype"] in ("nonneg_f32", "nonneg_f16"):
         tv = rs.choice(LEVELS, tv.size) + (rs.randint(0, 3, tv.size) / 4 if c["noise"] else 0)
-    if form == "py_int":
+    if c["dtype"] == "nonneg_bigint":
+        tv = (2 ** 53 + rs.randint(-3, 4, tv.size)).astype(np.int64)
+        form = {"py_float": "py_int", "np_float": "py_int", "es_noise": "es"}.get(form, form)
+    elif form == "py_int":
         tv = np.array([float(rs.randint(0, 5))])
     tn = None
     if form == "py_float":
@@ -490,7 +510,7 @@ def e_cmp(c):
     valid(gt, "x > thr")
     valid(lt, "x < thr")
     check(len(gt) == n and len(lt) == n, "comparison-length", f"len {len(gt)}/{len(lt)} want {n}")
-    if c["dtype"] in ("nonneg_real", "nonneg_int", "nonneg_f32", "nonneg_f16"):
+    if c["dtype"] in ("nonneg_real", "nonneg_int", "nonneg_f32", "nonneg_f16", "nonneg_bigint"):
         check(gt.data.tolist() == (total > ttot).astype(int).tolist(), "gt!=elementwise",
               f"total={total.tolist()} thr={ttot.tolist()} got {gt.data.tolist()}")
         check(lt.data.tolist() == (total < ttot).astype(int).tolist(), "lt!=elementwise",
